@@ -18,7 +18,8 @@ RULE = ('the real CVise.parse_pass_group_dict on (a) every shipped group under e
         'reordered rows, random flags); compared: per category the list of (pass, class, arg, max-transforms) or the error kind '
         'and the item it names, against the Coq parser evaluated on the generated term; an independent reading of the JSON '
         '(the documented rules, 20 lines of Python) is a second oracle; non-trivial = distinct (group, options) pairs'
-        ' Also: include / exclude lists naming several options of which only some are active.')
+        ' Also: include / exclude lists naming several options of which only some are active.'
+        " Also (rounds 4-5): --remove-pass names that extend other entries' names; the command line's own option set: cvise.py --list-passes in a child process with a chosen sys.platform, with and without --sllooww.")
 TRUSTED = ['translator tools/gen/passgroups.py (Python ast + json, fail-closed) regenerates pass_table, valid_options and the four shipped groups on every run',
            'hand-written parser model coq/Config/PassGroup.v tied by correspondence to cvise/cvise.py parse_pass_group_dict']
 ASSUMPTIONS = ['"max-transforms" values are integers (a non-integer raises ValueError in int(): outside the three error classes the property names)']
